@@ -16,6 +16,12 @@ THEOREMS = {
                                 ("BS.Props.C01", "BS.Props.C01.read_all_returns_history"),
                                 ("BS.Props.C01", "BS.Props.C01.buffer_size_irrelevant"),
                                 ("BS.Props.C01", "BS.Props.C01.carry_fits")]),
+    "C02": (["BS.Props.C02"], [("BS.Props.C02", "BS.Props.C02.range_read_exact"),
+                                ("BS.Props.C02", "BS.Props.C02.seek_exact"),
+                                ("BS.Props.C02", "BS.Props.C02.start_side"),
+                                ("BS.Props.C02", "BS.Props.C02.end_side")]),
+    "C14": (["BS.Props.C14"], [("BS.Props.C14", "BS.Props.C14.count_consistent"),
+                                ("BS.Props.C14", "BS.Props.C14.range_bytes")]),
     "C03": (["BS.Props.C03"], [("BS.Props.C03", "BS.Props.C03.accept_iff_strictly_newer"),
                                 ("BS.Props.C03", "BS.Props.C03.refused_step_is_noop")]),
     "C06": (["BS.Props.C06"], [("BS.Props.C06", "BS.Props.C06.incremental_index_exact"),
@@ -34,6 +40,7 @@ THEOREMS = {
                                 ("BS.Props.C07", "BS.Props.C07.reader_reads_canonical")]),
     "C10": (["BS.Props.C10"], [("BS.Props.C10", "BS.Props.C10.sampler_is_bucket_means"),
                                 ("BS.Props.C10", "BS.Props.C10.resampling_read_of_region"),
+                                ("BS.Props.C10", "BS.Props.C10.read_n_of_any_range"),
                                 ("BS.Props.C10", "BS.Props.C10.bucketMeans_length"),
                                 ("BS.Props.C10", "BS.Props.C10.at_most_2n")]),
     "C11": (["BS.Props.C11", "BS.Props.C10"], [("BS.Props.C11", "BS.Props.C11.estimate_total"),
@@ -41,6 +48,7 @@ THEOREMS = {
                                 ("BS.Props.C10", "BS.Props.C10.sampler_is_bucket_means"),
                                 ("BS.Props.C10", "BS.Props.C10.at_most_2n")]),
     "C13": (["BS.Props.C13"], [("BS.Props.C13", "BS.Props.C13.first_n_is_prefix"),
+                                ("BS.Props.C13", "BS.Props.C13.first_n_of_any_range"),
                                 ("BS.Props.C13", "BS.Props.C13.processor_takes_prefix")]),
     "C16": (["BS.Props.C16"], [("BS.Props.C16", "BS.Props.C16.pushData_appends"),
                                 ("BS.Props.C16", "BS.Props.C16.pushData_error_no_state"),
